@@ -6,5 +6,6 @@ CONSTANTS
   CacheTransparent = TRUE
   SerialsMemoised = TRUE
   ScopeFixed = TRUE
+  TouchInvisible = TRUE
 INVARIANTS C19_GraphStable
 CHECK_DEADLOCK FALSE
